@@ -26,102 +26,7 @@ func checkC06(p *Prog, r *Report) {
 	}
 	r.Rule("R1", "the entity removed by a notification is the element whose lastStateChange was tested to be 'removed'; the add path never creates or updates an entity announced as removed")
 	r.Rule("R2", "after a removal that found the entity: one entity-removed event carrying it, and the subscription, binding and client-cache clean-ups for it; none of these if the entity was unknown")
-	nRemovers := 0
-	for _, fn := range p.RepoFns("spine") {
-		var removal *ssa.Call
-		forEachCall(fn, func(site ssa.CallInstruction) {
-			if c, ok := site.(*ssa.Call); ok && calleeIsIfaceMethod(&c.Call, dri, "RemoveEntityByAddress") {
-				removal = c
-			}
-		})
-		if removal == nil {
-			continue
-		}
-		nRemovers++
-		base := FnName(fn)
-		arg := Path(callArgs(&removal.Call)[0])
-		elem := strings.TrimSuffix(arg, ".Description.EntityAddress.Entity")
-		tested := ""
-		for _, g := range Guards(removal.Block()) {
-			bo, ok := g.Cond.(*ssa.BinOp)
-			if !ok || (bo.Op == token.EQL) != g.Val {
-				continue
-			}
-			if s, isS := constString(bo.Y); isS && s == "removed" {
-				tested = strings.TrimSuffix(Path(bo.X), ".Description.LastStateChange")
-			}
-		}
-		r.Check("R1", base+"|removes-tested-element", elem != arg && tested != "" && elem == tested, p.InstrPos(removal), fmt.Sprintf("removal of %s under a test of the state of %s", arg, tested))
-		// on the peer the message came from
-		r.Check("R1", base+"|on-sender-device", strings.HasSuffix(Path(removal.Call.Value), ".FeatureRemote.Device()"), p.InstrPos(removal), "removal on "+Path(removal.Call.Value))
-
-		// R2 cascade
-		type step struct {
-			name string
-			call *ssa.Call
-			arg  ssa.Value
-		}
-		var steps []step
-		forEachCall(fn, func(site ssa.CallInstruction) {
-			c, ok := site.(*ssa.Call)
-			if !ok {
-				return
-			}
-			switch {
-			case calleeIsIfaceMethod(&c.Call, smi, "RemoveSubscriptionsForEntity"):
-				steps = append(steps, step{"subscriptions", c, callArgs(&c.Call)[0]})
-			case calleeIsIfaceMethod(&c.Call, bmi, "RemoveBindingsForEntity"):
-				steps = append(steps, step{"bindings", c, callArgs(&c.Call)[0]})
-			case calleeIsIfaceMethod(&c.Call, dli, "CleanRemoteEntityCaches"):
-				a := callArgs(&c.Call)[0]
-				if ac, ok := a.(*ssa.Call); ok && ac.Call.IsInvoke() && ac.Call.Method.Name() == "Address" {
-					a = ac.Call.Value
-				}
-				steps = append(steps, step{"client-caches", c, a})
-			case staticCallee(&c.Call, repoMod+"/spine", "events", "Publish"):
-				ev := eventFields(c.Call.Args[len(c.Call.Args)-1])
-				ct, _ := constInt(ev["ChangeType"])
-				et, _ := constInt(ev["EventType"])
-				wantC, _ := constOf(p, "api", "ElementChangeRemove")
-				wantE, _ := constOf(p, "api", "EventTypeEntityChange")
-				if ct == wantC && et == wantE {
-					steps = append(steps, step{"event", c, ev["Entity"]})
-				}
-			}
-		})
-		seen := map[string]int{}
-		for _, st := range steps {
-			seen[st.name]++
-			guarded := false
-			extra := 0
-			for _, g := range Guards(st.call.Block()) {
-				if x, trueNil, ok := nilTest(g.Cond); ok && unwrapIface(x) == ssa.Value(removal) {
-					if trueNil != g.Val {
-						guarded = true
-					}
-					continue
-				}
-				// guards shared with the removal itself are fine
-				shared := false
-				for _, g2 := range Guards(removal.Block()) {
-					if g2.Cond == g.Cond && g2.Val == g.Val {
-						shared = true
-					}
-				}
-				if !shared {
-					extra++
-				}
-			}
-			okArg := st.arg != nil && unwrapIface(st.arg) == ssa.Value(removal)
-			r.Check("R2", fmt.Sprintf("%s|%s", base, st.name), guarded && okArg && extra == 0 && instrDominates(removal, st.call), p.InstrPos(st.call), fmt.Sprintf("only if the removal found the entity: %v; applied to the removed entity: %v; %d extra conditions", guarded, okArg, extra))
-		}
-		for _, name := range []string{"event", "subscriptions", "bindings", "client-caches"} {
-			if seen[name] != 1 {
-				r.Fail("R2", fmt.Sprintf("%s|%s|count", base, name), p.Pos(fn.Pos()), fmt.Sprintf("%d such steps in the removal branch, exactly one expected", seen[name]))
-			}
-		}
-	}
-	r.Floor("R1", "functions removing remote entities", nRemovers, 1)
+	entityRemovalCascade(p, r, "R1", "R2")
 
 	// add path: AddEntityAndFeatures
 	r.Rule("R3", "an entity-added event is published once per element of the list returned by AddEntityAndFeatures; that list grows only on a look-up miss, with the entity just created for the announced address")
@@ -322,6 +227,14 @@ func checkC06(p *Prog, r *Report) {
 		return strings.Contains(key, "Operations") || strings.Contains(key, "AddFunctionType")
 	})
 	c06Rebuild(p, r)
+	r.Rule("R6", "the per-entity clean-ups called by the cascade remove that entity's entries and nothing else: keep ⇔ ¬(client device ∧ client entity equal) (retain truth tables, shared with C10-R1)")
+	applyRetain(p, r, "R6", "spine", "SubscriptionManager", "RemoveSubscriptionsForEntity", retainSpec{Field: F("SubscriptionManager.subscriptionEntries"),
+		Required: map[string]string{"client.device": "ClientFeature.Device().Ski()|ClientFeature.Address().Device", "client.entity": "ClientFeature.Address().Entity"}})
+	applyRetain(p, r, "R6", "spine", "BindingManager", "RemoveBindingsForEntity", retainSpec{Field: F("BindingManager.bindingEntries"),
+		Required: map[string]string{"client.device": "ClientFeature.Device().Ski()|ClientFeature.Address().Device", "client.entity": "ClientFeature.Address().Entity"}})
+	for _, f := range []string{F("FeatureLocal.subscriptions"), F("FeatureLocal.bindings")} {
+		applyRetain(p, r, "R6", "spine", "FeatureLocal", "CleanRemoteEntityCaches", retainSpec{Field: f, Required: map[string]string{"device": "=Device", "entity": "=Entity"}})
+	}
 	r.Assumes("getters of the remote device tree are uninterpreted")
 }
 
@@ -459,4 +372,113 @@ func lintSubset(p *Prog, r *Report, rule, statement string, filter func(key stri
 	if hits == 0 {
 		r.Pass(rule, "repository", "", fmt.Sprintf("%d constructs examined, no definite swap in scope; built-in positive example fires", n))
 	}
+}
+
+// entityRemovalCascade: which element a removal notification removes, and that
+// the clean-up steps are applied to the entity that was removed (shared by C06 and C10).
+func entityRemovalCascade(p *Prog, r *Report, ruleA, ruleB string) {
+	dri := p.LookupIface("api", "DeviceRemoteInterface")
+	smi := p.LookupIface("api", "SubscriptionManagerInterface")
+	bmi := p.LookupIface("api", "BindingManagerInterface")
+	dli := p.LookupIface("api", "DeviceLocalInterface")
+	if dri == nil || smi == nil || bmi == nil || dli == nil {
+		r.Undecided(ruleA, "anchor:api interfaces", "", "interface not found")
+		return
+	}
+	nRemovers := 0
+	for _, fn := range p.RepoFns("spine") {
+		var removal *ssa.Call
+		forEachCall(fn, func(site ssa.CallInstruction) {
+			if c, ok := site.(*ssa.Call); ok && calleeIsIfaceMethod(&c.Call, dri, "RemoveEntityByAddress") {
+				removal = c
+			}
+		})
+		if removal == nil {
+			continue
+		}
+		nRemovers++
+		base := FnName(fn)
+		arg := Path(callArgs(&removal.Call)[0])
+		elem := strings.TrimSuffix(arg, ".Description.EntityAddress.Entity")
+		tested := ""
+		for _, g := range Guards(removal.Block()) {
+			bo, ok := g.Cond.(*ssa.BinOp)
+			if !ok || (bo.Op == token.EQL) != g.Val {
+				continue
+			}
+			if s, isS := constString(bo.Y); isS && s == "removed" {
+				tested = strings.TrimSuffix(Path(bo.X), ".Description.LastStateChange")
+			}
+		}
+		r.Check(ruleA, base+"|removes-tested-element", elem != arg && tested != "" && elem == tested, p.InstrPos(removal), fmt.Sprintf("removal of %s under a test of the state of %s", arg, tested))
+		// on the peer the message came from
+		r.Check(ruleA, base+"|on-sender-device", strings.HasSuffix(Path(removal.Call.Value), ".FeatureRemote.Device()"), p.InstrPos(removal), "removal on "+Path(removal.Call.Value))
+
+		// R2 cascade
+		type step struct {
+			name string
+			call *ssa.Call
+			arg  ssa.Value
+		}
+		var steps []step
+		forEachCall(fn, func(site ssa.CallInstruction) {
+			c, ok := site.(*ssa.Call)
+			if !ok {
+				return
+			}
+			switch {
+			case calleeIsIfaceMethod(&c.Call, smi, "RemoveSubscriptionsForEntity"):
+				steps = append(steps, step{"subscriptions", c, callArgs(&c.Call)[0]})
+			case calleeIsIfaceMethod(&c.Call, bmi, "RemoveBindingsForEntity"):
+				steps = append(steps, step{"bindings", c, callArgs(&c.Call)[0]})
+			case calleeIsIfaceMethod(&c.Call, dli, "CleanRemoteEntityCaches"):
+				a := callArgs(&c.Call)[0]
+				if ac, ok := a.(*ssa.Call); ok && ac.Call.IsInvoke() && ac.Call.Method.Name() == "Address" {
+					a = ac.Call.Value
+				}
+				steps = append(steps, step{"client-caches", c, a})
+			case staticCallee(&c.Call, repoMod+"/spine", "events", "Publish"):
+				ev := eventFields(c.Call.Args[len(c.Call.Args)-1])
+				ct, _ := constInt(ev["ChangeType"])
+				et, _ := constInt(ev["EventType"])
+				wantC, _ := constOf(p, "api", "ElementChangeRemove")
+				wantE, _ := constOf(p, "api", "EventTypeEntityChange")
+				if ct == wantC && et == wantE {
+					steps = append(steps, step{"event", c, ev["Entity"]})
+				}
+			}
+		})
+		seen := map[string]int{}
+		for _, st := range steps {
+			seen[st.name]++
+			guarded := false
+			extra := 0
+			for _, g := range Guards(st.call.Block()) {
+				if x, trueNil, ok := nilTest(g.Cond); ok && unwrapIface(x) == ssa.Value(removal) {
+					if trueNil != g.Val {
+						guarded = true
+					}
+					continue
+				}
+				// guards shared with the removal itself are fine
+				shared := false
+				for _, g2 := range Guards(removal.Block()) {
+					if g2.Cond == g.Cond && g2.Val == g.Val {
+						shared = true
+					}
+				}
+				if !shared {
+					extra++
+				}
+			}
+			okArg := st.arg != nil && unwrapIface(st.arg) == ssa.Value(removal)
+			r.Check(ruleB, fmt.Sprintf("%s|%s", base, st.name), guarded && okArg && extra == 0 && instrDominates(removal, st.call), p.InstrPos(st.call), fmt.Sprintf("only if the removal found the entity: %v; applied to the removed entity: %v; %d extra conditions", guarded, okArg, extra))
+		}
+		for _, name := range []string{"event", "subscriptions", "bindings", "client-caches"} {
+			if seen[name] != 1 {
+				r.Fail(ruleB, fmt.Sprintf("%s|%s|count", base, name), p.Pos(fn.Pos()), fmt.Sprintf("%d such steps in the removal branch, exactly one expected", seen[name]))
+			}
+		}
+	}
+	r.Floor(ruleA, "functions removing remote entities", nRemovers, 1)
 }
